@@ -192,6 +192,7 @@ Proof. exact glob_one_level. Qed.
 Theorem C14_glob_names_resolved : forall cr s v cs c ch m,
   v_os v = Linux -> Forall good_comp cs -> length cs < SEARCH_FUEL -> resolves s v cs c ->
   get (f_heap s) c = Some (NDir ch m) ->
+  (forall name c', In (name, c') ch -> get (f_heap s) c' <> None) ->    (* no dangling entry: an invariant of the heap (C05) *)
   p_dir_names (mem_prims cr s v) (abs_path cs) = if check_permission m OpenRead (v_user v) then Some (dir_names ch) else None.
 Proof. intros. eapply mem_dir_names_resolved; eassumption. Qed.
 
